@@ -63,11 +63,13 @@ MIN_EVENTS = {
     'quick': {'build_roundtrips': 20000, 'frombytes_roundtrips': 20000, 'layout_checks': 20000,
               'rebuilds': 40000, 'generic_checks': 3000, 'cmdcomplete_checks': 3000,
               'data_checks': 3000, 'classes_populated': 270, 'pad_roundtrips': 2000,
-              'iso_status_checks': 100},
-    'thorough': {'build_roundtrips': 600000, 'frombytes_roundtrips': 600000, 'layout_checks': 600000,
-                 'rebuilds': 1200000, 'generic_checks': 30000, 'cmdcomplete_checks': 30000,
+              'iso_status_checks': 100, 'synthetic_all_paths_roundtrips': 1000,
+              'cmdcomplete_error_status_checks': 2000, 'sweep_instances': 4000},
+    'thorough': {'build_roundtrips': 2500000, 'frombytes_roundtrips': 2500000, 'layout_checks': 2500000,
+                 'rebuilds': 5000000, 'generic_checks': 30000, 'cmdcomplete_checks': 30000,
                  'data_checks': 30000, 'classes_populated': 270, 'pad_roundtrips': 60000,
-                 'iso_status_checks': 1000},
+                 'iso_status_checks': 1000, 'synthetic_all_paths_roundtrips': 20000,
+                 'cmdcomplete_error_status_checks': 20000, 'sweep_instances': 65536},
 }
 CASE_TIMEOUT = 900
 
@@ -81,8 +83,8 @@ def plan(tier, seed):
         ngen, ncc, ndata = 8, 16, 8
         cc_per, data_rand = 3, 300
     else:
-        ncls, per = 320, 10
-        ngen, ncc, ndata = 32, 64, 32
+        ncls, per = 800, 14
+        ngen, ncc, ndata = 32, 96, 32
         cc_per, data_rand = 10, 3000
     for i in range(ncls):
         cases.append({'kind': 'classes', 'seed': seed * 1000003 + i, 'per': per})
@@ -92,6 +94,10 @@ def plan(tier, seed):
         cases.append({'kind': 'cmdcomplete', 'seed': seed * 1000003 + i, 'per': cc_per})
     for i in range(ndata):
         cases.append({'kind': 'data', 'seed': seed * 1000003 + i, 'random': data_rand})
+    step = 16 if tier == 'quick' else 1
+    for i in range(16):
+        # quick: a different residue class per seed, so that seeds together cover all values
+        cases.append({'kind': 'sweep', 'seed': seed * 1000003 + i, 'lo': i * 4096 + (seed % step), 'hi': (i + 1) * 4096, 'step': step})
     return cases
 
 
@@ -197,7 +203,10 @@ def registries():
     for cls in synthetic_classes(hci):
         e = Entry('codec', 0, cls)
         e.limit = 1500
-        e.descs = ref.describe_class(cls)
+        try:
+            e.descs = ref.describe_class(cls)
+        except ref.Unsupported as ex:
+            e.why = str(ex)
         entries.append(e)
     _REG = {'entries': entries, 'vendor_codes': vendor_codes, 'hci': hci,
             'unregistered_ops': unregistered_ops}
@@ -457,7 +466,7 @@ def tags_of(descs, acc=None):
 
 def shape_of(descs, values):
     out = []
-    for d in descs[:10]:
+    for d in descs[:6]:
         k = d.kind
         if k in ('group', 'maskgroup'):
             out.append(('n', len(values[d.sub[0].name])))
@@ -546,19 +555,22 @@ def describe_values(descs, values, limit=300):
     return s if len(s) <= limit else s[:limit] + '...'
 
 
-def one_instance(reg, e: Entry, rng, r: R, agg: Agg, short: bool):
+def one_instance(reg, e: Entry, rng, r: R, agg: Agg, short: bool, values=None, from_bytes_too=True):
     hci = reg['hci']
     pre = ('pad' if short else 'roundtrip') + '/' + e.kind
     descs = e.descs
 
     # ---------------- build direction: A, B, C --------------------------------
-    values = gen_instance(reg, e, rng, short)
+    if values is None:
+        values = gen_instance(reg, e, rng, short)
     params_ref, layout = ref.encode(descs, values)
     b_ref = header(e, params_ref)
     expect = ref.canonical(descs, values)
     ctx = lambda: f'{e.name}({describe_values(descs, values)})'
     r.evals()
     r.ev('pad_roundtrips' if short else 'build_roundtrips')
+    if e.kind == 'codec':
+        r.ev('synthetic_all_paths_roundtrips')
     if descs:
         r.sig(e.kind, e.name, 'b', short, shape_of(descs, values))
     else:
@@ -594,10 +606,12 @@ def one_instance(reg, e: Entry, rng, r: R, agg: Agg, short: bool):
                 agg.add(f'{pre}/wrong-class', e, f'{ctx()} -> {b1.hex()[:80]} parsed as {type(parsed).__name__}')
             else:
                 r.ev('field_compares')
+                fields_ok = True
                 try:
                     got = plain_obj(descs, parsed)
                     compare(descs, expect, got)
                 except Mismatch as m:
+                    fields_ok = False
                     clause = 'addr-type' if getattr(m, 'addr_type', False) else 'field'
                     agg.add(f'{pre}/{clause}', e, f'{ctx()} -> {b1.hex()[:80]} -> {m}', m.desc)
                 r.ev('oracle_evals')
@@ -607,12 +621,13 @@ def one_instance(reg, e: Entry, rng, r: R, agg: Agg, short: bool):
                         agg.add(f'{pre}/reserialise', e, f'{ctx()}: bytes(parsed)={b2.hex()[:120]} != {b1.hex()[:120]}')
                 except Exception as ex:
                     agg.add(f'{pre}/reserialise', e, f'{ctx()}: bytes(parsed) raised {type(ex).__name__}: {ex}')
-                # B: fresh object from the parsed attributes
+                # B: fresh object from the parsed attributes (a wrong parsed field has been
+                # reported already; its echo in the rebuilt bytes is not a second finding)
                 r.ev('rebuilds')
                 r.ev('oracle_evals')
                 try:
                     b3 = rebuild(e, parsed)
-                    if b3 != b1:
+                    if b3 != b1 and fields_ok:
                         path, d, pos = ref.locate(layout, b1[header_len(e):], b3[header_len(e):])
                         agg.add(f'{pre}/rebuild', e,
                                 f'{ctx()}: object rebuilt from parsed fields gives {b3.hex()[:120]} != {b1.hex()[:120]} (field {path})', d)
@@ -620,7 +635,7 @@ def one_instance(reg, e: Entry, rng, r: R, agg: Agg, short: bool):
                     agg.add(f'{pre}/rebuild-raises', e, f'{ctx()}: rebuilding from parsed fields raised {type(ex).__name__}: {ex}')
 
     # ---------------- from-bytes direction: D ----------------------------------
-    if short:
+    if short or not from_bytes_too:
         return values, b_ref
     values = gen_instance(reg, e, rng, False)
     params_ref, layout = ref.encode(descs, values)
@@ -645,10 +660,12 @@ def one_instance(reg, e: Entry, rng, r: R, agg: Agg, short: bool):
             agg.add(f'{pre}/frombytes-class', e, f'{b_ref.hex()[:80]} parsed as {type(parsed).__name__}, registered class is {e.name}')
         else:
             r.ev('field_compares')
+            fields_ok = True
             try:
                 got = plain_obj(descs, parsed)
                 compare(descs, expect, got)
             except Mismatch as m:
+                fields_ok = False
                 clause = 'frombytes-addr-type' if getattr(m, 'addr_type', False) else 'frombytes-field'
                 agg.add(f'{pre}/{clause}', e, f'{e.name}: {b_ref.hex()[:120]} ({describe_values(descs, values)}) -> {m}', m.desc)
             r.ev('oracle_evals')
@@ -662,7 +679,7 @@ def one_instance(reg, e: Entry, rng, r: R, agg: Agg, short: bool):
             r.ev('oracle_evals')
             try:
                 b3 = rebuild(e, parsed)
-                if b3 != b_ref:
+                if b3 != b_ref and fields_ok:
                     path, d, pos = ref.locate(layout, params_ref, b3[header_len(e):])
                     agg.add(f'{pre}/frombytes-rebuild', e,
                             f'{e.name}: {b_ref.hex()[:120]} parsed, rebuilt from its fields gives {b3.hex()[:120]} (field {path})', d)
@@ -724,6 +741,41 @@ def classes_case(case, r: R):
                 one_instance(reg, e, rng, r, agg, short=True)
     agg.flush(r)
     r.sample = sample or {'kind': 'classes', 'classes': len(reg['entries'])}
+
+
+def sweep_case(case, r: R):
+    """Every 8-bit value and every (quick: every 16th) 16-bit value through every integer
+    path of the field language, on the synthetic all-paths object."""
+    reg = registries()
+    rng = random.Random(case['seed'] ^ 0x5)
+    agg = Agg()
+    for e in reg['entries']:
+        if e.kind != 'codec' or e.descs is None:
+            continue
+        agg.saw(e)
+        base = gen_instance(reg, e, rng)
+        for v in range(case['lo'], case['hi'], case['step']):
+            values = dict(base)
+            for d in e.descs:
+                subs = d.sub if d.kind == 'group' else [d]
+                for sd in subs:
+                    if sd.kind == 'uint':
+                        bits = 8 * sd.size
+                        x = v & ((1 << bits) - 1) if bits <= 16 else ((v << (bits - 16)) | (v >> (32 - bits))) & ((1 << bits) - 1)
+                    elif sd.kind == 'sint':
+                        bits = 8 * sd.size
+                        x = (v & ((1 << bits) - 1)) - (1 << (bits - 1))
+                    else:
+                        continue
+                    if d.kind == 'group':
+                        values[sd.name] = [x for _ in values[sd.name]]
+                    else:
+                        values[sd.name] = x
+            ref._fix_addr_types(rng, e.descs, values)
+            r.ev('sweep_instances')
+            one_instance(reg, e, rng, r, agg, False, values=values, from_bytes_too=False)
+    agg.flush(r)
+    r.sample = {'kind': 'sweep', 'range': [case['lo'], case['hi'], case['step']]}
 
 
 def _flat(descs):
@@ -1276,6 +1328,8 @@ def run_case(case, r: R):
         cmdcomplete_case(case, r)
     elif k == 'data':
         data_case(case, r)
+    elif k == 'sweep':
+        sweep_case(case, r)
     else:
         raise ValueError(k)
 
